@@ -11,7 +11,7 @@ def mono_entry_stored : Bool := true
 def mono_meta_cut : Bool := true
 def mono_mincut : Bool := true
 def shape_cached_descent_min : Bool := true
-def shape_chase_inherits_lineage : Bool := false
+def shape_chase_inherits_lineage : Bool := true
 def shape_ds_bounds_lease : Bool := true
 def shape_hit_does_not_store : Bool := true
 def shape_lease_anchored_at_observation : Bool := true
